@@ -248,15 +248,12 @@ def c14cd(ctx, tu):
 
 
 def c14e(ctx, tu):
-    """moved mock: the movable variant's move constructor is the defaulted member-wise one"""
-    for c in tu.classes.values():
-        if not c["q"].startswith(NS + "expectations<true") or c.get("incomplete"):
-            continue
-        st = c.get("special", {}).get("move_ctor", {}).get("status")
-        ok = st == "defaulted"
-        ctx.ob("C14.e", NS + "expectations<true> move constructor", ok, pattern=short_loc(c.get("loc", "")), unit=tu.name,
-               detail="" if ok else "moving a movable mock must move both expectation lists member-wise (status: %s)" % st)
-    # (that a moved-from node ends up unlinked is decided semantically by C14.g)
+    """moved mock: the movable variant's move constructor carries both lists over - the defaulted member-wise one, or
+    a hand-written one that moves both (rules/C04.c04h decides; that a moved-from node ends up unlinked is decided
+    semantically by C14.g)"""
+    from rules import C04
+    before = len(ctx.obs) if hasattr(ctx, "obs") else None
+    C04.c04h(ctx, tu, rule="C14.e")
 
 
 def c14f(ctx, tu):
